@@ -463,7 +463,7 @@ BOOL_POOL = ["1", "yes", "true", "on", "0", "no", "false", "off", "TRUE", "Yes",
 STR_POOL = ["abc", "Hello World", "  padded  ", "x", "a\\nb", "a\\tb", "c:\\\\new", "C:\\\\\\\\new\\\\\\\\tunes",
             "\\\\\\\\\\\\\\\\nas\\\\\\\\share", "q\\\\\\\\\\\\t", "http", "https", "socks4",
             "socks5", ".m3u", ".m3u8", "latin-1", "ÅÉ", "MiXeD", "\\\\", "%(levelname)s", "a;b", "#c", "a=b",
-            "\U0001F600", "x" * 40, "İstanbul", "\u212aelvin", "Top 40 #1 hits", "a\t#b", "#lead", "C# minor", "x #", "a #b ;c", '""', '"quoted"', '"', "ABC", "Abc"]
+            "\U0001F600", "x" * 40, "İstanbul", "\u212aelvin", "Top 40 #1 hits", "a\t#b", "#lead", "C# minor", "x #", "a #b ;c", '""', '"quoted"', '"', "ABC", "Abc", "Hello, World", "a, b"]
 PATH_POOL = ["/tmp", "/tmp/x/../y", "~", "~/music", "~root/x", "~nosuchuser/x", "~nosuchuser", "$XDG_CACHE_DIR/m",
              "$XDG_CONFIG_DIR", "$XDG_DATA_DIR/a b", "$XDG_MUSIC_DIR", "$HOME/x", "rel/path", ".", "..", "",
              " /tmp ", "a\x00b", "/tmp/\udcff", "/tmp/é", "x" * 300, "/a\\nb", "$", "~~", "//x", "/tmp/", "~/$X",
